@@ -290,11 +290,33 @@ pub async fn lb_seq(args: &[&str]) -> String {
     if lb.init().await.is_err() {
         return "LB-INIT-ERR".into();
     }
+    // optional 9th argument: further load balancers (`,`-separated yaml documents in hex) that the entry balancer may
+    // name as members (nested balancers)
+    if args.len() > 8 && args[8] != "-" {
+        for l in args[8].split(',') {
+            let doc = String::from_utf8_lossy(&unhex(l)).to_string();
+            let v: serde_yaml::Value = match serde_yaml::from_str(&doc) {
+                Ok(v) => v,
+                Err(_) => return "LB-ERR".into(),
+            };
+            let mut inner = match crate::connectors::from_value(&v) {
+                Ok(c) => c,
+                Err(_) => return "LB-ERR".into(),
+            };
+            if inner.init().await.is_err() {
+                return "LB-INIT-ERR".into();
+            }
+            let n = inner.name().to_owned();
+            Arc::get_mut(&mut w.state).unwrap().connectors.insert(n, inner.into());
+        }
+    }
     let name = lb.name().to_owned();
     Arc::get_mut(&mut w.state).unwrap().connectors.insert(name.clone(), lb.into());
     let w = Arc::new(w);
-    if w.state.connectors.get(&name).unwrap().verify(w.state.clone()).await.is_err() {
-        return "LB-VERIFY-ERR".into();
+    for c in w.state.connectors.values() {
+        if c.verify(w.state.clone()).await.is_err() {
+            return "LB-VERIFY-ERR".into();
+        }
     }
     let spec = format!("{}:-", hex(name.as_bytes()));
     w.state.set_rules(rules_from_spec(&spec).unwrap()).await.unwrap();
